@@ -62,6 +62,10 @@ def call_atom(ex, state, f, args, kwargs, node=None):
         return unknown_call(ex, state, "opaque-callable:" + f.tag.split("!")[0], args, kwargs, None)
     if isinstance(f, VNoneT):
         ex.raise_if(state, z3.BoolVal(True), "TypeError")
+    if isinstance(f, VInt) and "call:int" in ex.reg.externals:
+        # an opaque class / callable identity: the registered (assumed) primitive stands for the call
+        ex.notes["externals"].add("call:int")
+        return ex.reg.externals["call:int"](ex, state, [f] + list(args), kwargs, None)
     if isinstance(f, VRef):
         o = ex.obj(state, f)
         if o.kind == "inst" and o.cls is not None and o.cls.info is not None:
@@ -135,25 +139,42 @@ def _is_container_type(typ):
 def bind_params(ex, state, fnode, args, kwargs, module, self_val=None):
     """Python argument binding (positional, keyword, defaults, *args, **kwargs)."""
     a = fnode.args
+    posonly = [x.arg for x in a.posonlyargs]
     names = [x.arg for x in a.posonlyargs + a.args]
     env = {}
     actual = list(args)
     if self_val is not None:
         actual = [self_val] + actual
-    if any(isinstance(x, StarArgs) for x in actual):
-        raise Unsupported("call with *args of unknown length into a modelled callee")
+    star = None
+    for i, x in enumerate(actual):
+        if isinstance(x, StarArgs):
+            # f(a, b, *seq) with a sequence of unknown length: supported when every fixed parameter is already
+            # bound by the explicit positional arguments, so that the sequence lands in the callee's *args as it is
+            if i != len(actual) - 1 or a.vararg is None or i < len(names):
+                raise Unsupported("call with *args of unknown length into a modelled callee")
+            star = ex.narrow(state, x.v)
+            if isinstance(star, VNoneT):
+                ex.raise_if(state, z3.BoolVal(True), "TypeError")
+            actual = actual[:i]
     if len(actual) > len(names) and a.vararg is None:
         ex.raise_if(state, z3.BoolVal(True), "TypeError")
     for n, v in zip(names, actual):
         env[n] = v
     if a.vararg is not None:
-        env[a.vararg.arg] = VTuple(actual[len(names):])
+        if star is not None:
+            if len(actual) > len(names):
+                raise Unsupported("explicit extra positional arguments followed by *args of unknown length")
+            env[a.vararg.arg] = star        # read-only view of the caller's sequence (a tuple copy in CPython)
+        else:
+            env[a.vararg.arg] = VTuple(actual[len(names):])
     extra_kw = {}
+    sym_kw = None
     kwonly = [x.arg for x in a.kwonlyargs]
     for k, v in kwargs.items():
         if k == "**":
-            raise Unsupported("call with **kwargs of unknown keys into a modelled callee")
-        if k in names or k in kwonly:
+            sym_kw = ex.narrow(state, v)
+            continue
+        if (k in names and k not in posonly) or k in kwonly:
             if k in env:
                 ex.raise_if(state, z3.BoolVal(True), "TypeError")
             env[k] = v
@@ -161,6 +182,23 @@ def bind_params(ex, state, fnode, args, kwargs, module, self_val=None):
             extra_kw[k] = v
         else:
             ex.raise_if(state, z3.BoolVal(True), "TypeError")
+    sym_copy = None
+    if sym_kw is not None:
+        # f(**table) with a table of unknown keys: a key that names a parameter already bound is the TypeError
+        # "got multiple values for argument"; a key naming an unbound parameter would bind it (must be refutable)
+        if isinstance(sym_kw, VNoneT):
+            ex.raise_if(state, z3.BoolVal(True), "TypeError")
+        so = ex.obj(state, sym_kw) if isinstance(sym_kw, VRef) else None
+        if so is None or so.kind != "dict" or getattr(so, "sym", None) is None or so.sym["ktype"] != "str" \
+                or a.kwarg is None:
+            raise Unsupported("call with **kwargs of unknown keys into a modelled callee")
+        for n in [x for x in names if x not in posonly] + kwonly:
+            present = z3.Select(so.sym["has"], z3.StringVal(n))
+            if n in env:
+                ex.raise_if(state, present, "TypeError")
+            elif not ex.prove_quick(state, z3.Not(present)):
+                raise Unsupported("**kwargs of unknown keys may bind parameter %s" % n)
+        sym_copy = dict(so.sym)
     # defaults
     defaults = a.defaults
     for i, n in enumerate(names):
@@ -176,8 +214,16 @@ def bind_params(ex, state, fnode, args, kwargs, module, self_val=None):
             env[n] = eval_in_module(ex, state, module, d)
     if a.kwarg is not None:
         o = HObj("dict")
-        o.d = dict(extra_kw)
-        env[a.kwarg.arg] = state.alloc(o)
+        if sym_copy is not None:
+            o.sym = sym_copy        # a new dict object with the caller's entries
+            r = state.alloc(o)
+            from . import models
+            for k, v in extra_kw.items():
+                models.dict_setitem(ex, state, r, VStr(z3.StringVal(k)), v)
+            env[a.kwarg.arg] = r
+        else:
+            o.d = dict(extra_kw)
+            env[a.kwarg.arg] = state.alloc(o)
     return env
 
 
@@ -520,6 +566,11 @@ def fresh_like(ex, state, v, name):
 def apply_contract(ex, state, contract, env):
     """Use a callee's contract at a call site: assert requires, havoc modifies, assume ensures."""
     short = contract.addr.split(":")[-1]
+    for n, typ in contract.params.items():
+        if n.startswith("forall_") and n not in env:
+            # a universally quantified ghost parameter: the caller gets one (arbitrary) instance
+            env = dict(env)
+            env[n] = ex.reg.fresh(ex, state, typ, n)
     cenv = clause_env(ex, state, contract, env)
     for i, cl in enumerate(contract.requires):
         t, side = eval_clause(ex, state, contract, cl, cenv)
